@@ -182,6 +182,7 @@ def main(tier: str, seed: int) -> int:
             if text != canonical[(name, tuple(traits))]:
                 order_dependences.append({"name": name, "prog": progmap[name], "traits": traits, "deviation": dev,
                                           "canonical": canonical[(name, tuple(traits))], "deviating": text})
+    phase = {"schedules": round(time.time() - t0, 1)}
     # conformance: the rewritten package under the canonical policy behaves like the plain package
     conf_mismatch = 0
     with mp.get_context("fork").Pool(int(os.environ.get("VT_NPROC", "16")), initializer=_plain_init) as pool:
@@ -191,6 +192,7 @@ def main(tier: str, seed: int) -> int:
                 order_dependences.append({"name": name, "traits": traits, "deviation": "plain import vs canonical order",
                                           "prog": dict(progs)[name], "canonical": canonical.get((name, tuple(traits))),
                                           "deviating": text})
+    phase["conformance"] = round(time.time() - t0, 1)
     # 2. real seeds
     nseeds = 4 if quick else 32
     seeds = [(seed * 7919 + i) % 4294967295 for i in range(nseeds)]
@@ -233,6 +235,7 @@ def main(tier: str, seed: int) -> int:
         else:
             unconfirmed.append({"name": dep["name"], "traits": dep["traits"], "deviation": dep["deviation"]})
     notes["unconfirmed_order_dependence"] = unconfirmed
+    phase["seeds"] = round(time.time() - t0, 1)
     # 3. histories
     depth = 2 if quick else 3
     hists = [()]
@@ -256,6 +259,7 @@ def main(tier: str, seed: int) -> int:
             viol.append((f"history dependence: probe {HIST_ALPHABET[pr][0]} after {[HIST_ALPHABET[i][0] for i in hst]} ({mode})",
                          {"history": [HIST_ALPHABET[i][1] for i in hst], "probe": HIST_ALPHABET[pr][1], "mode": mode,
                           "fresh": fresh[pr], "after_history": text}))
+    phase["histories"] = round(time.time() - t0, 1)
     # 4. argument immutability under all 512 subsets on the composition corpus (+ units under default/all)
     agg = driver.Aggregate()
     subsets = all_subsets(TRAITS)
@@ -285,6 +289,7 @@ def main(tier: str, seed: int) -> int:
     for jb, cres, v in agg.violations:
         if v.get("kind") == "mutated_argument":
             viol.append(("optimize modified the statements passed in", {"program": jb["prog"], "traits": cres["traits"]}))
+    phase["immutability"] = round(time.time() - t0, 1)
     # ---- report
     code = 0
     groups: dict = {}
@@ -320,7 +325,7 @@ def main(tier: str, seed: int) -> int:
                                    {"seeds": seeds[:4]}],
                        "schedule_runs": sched_runs, "active_sites": len(sites_all), "cli_runs": len(cli_jobs),
                        "history_runs": len(hist_jobs), "immutability_executions": agg.executions,
-                       "conformance_mismatches": conf_mismatch, "exhaustive": True, **notes,
+                       "conformance_mismatches": conf_mismatch, "phase_end_s": phase, "exhaustive": True, **notes,
                        "bounds": {"deviation_sites": bound, "seeds": nseeds, "history_depth": depth}},
           "assumptions": ["iteration orders of larger sets are represented by three permutation policies per site",
                           "an order dependence is only reported with a confirming real PYTHONHASHSEED (0..511)"],
